@@ -1,5 +1,266 @@
-import CalmVerif.Model.SourceMap
-import CalmVerif.Spec.SourceMapV3
+/-
+C09  Source map decodes to exactly the positions the fragments carried.
+
+Model   : `CalmVerif.Model.SourceMap`   (`write`, `normalizeMappings`, `Names`, bookkeeper cells)
+Spec    : `CalmVerif.Spec.SourceMapV3`  (`decode`, `exactAt`, `interp`, `genPos`, `lineCount`)
+Proofs  : `CalmVerif.Proofs.SourceMap*`
+
+All theorems are about the raw mappings returned by `write` (relative integers, before
+`encode_mappings`); `write_WFMappings` supplies the hypothesis of C10's round trip theorem, so
+that the statements transfer to the `mappings` string.
+
+They hold for every character-class triple `cc` with `ClassesOK cc` (splitlines breaks at CR
+and at LF, the newline test is `in '\r\n'`; nothing is assumed about what else splitlines
+breaks at, nor about `rstrip`), in particular for `pyClasses` (`pyClasses_ok`).
+
+Hypotheses on the stream:
+  * `NoSplitCRLF frags` : no fragment text ends in CR while the next non-empty text begins
+    with LF.  Needed (examples below): the implementation pushes two mapping lines where the
+    written text has the single delimiter CRLF.
+  * for the per-fragment theorems, the fragment's text is non-empty (an empty text writes
+    nothing and emits no segment; example below).
+  `WFStream` additionally asks that `lineno`/`colno` are both given or both `None`
+  (docstring of `write`); the proofs do not need it (a half-given position is treated as
+  unmapped by the code), so the theorems only assume `NoSplitCRLF`; `WFStream.noSplit` converts.
+
+Columns are counted in code points on both sides (Python `str` indices).
+-/
+import CalmVerif.Proofs.SourceMapFinal
+
 namespace CalmVerif.Props.C09
-theorem stub : True := trivial
+open CalmVerif.Model.SourceMap
+open CalmVerif.Spec.SourceMapV3
+open CalmVerif.Proofs.SourceMap
+
+/-- no fragment text ends in CR while the next non-empty text begins with LF -/
+def NoSplitCRLF (frags : List Frag) : Prop := noSplitCRLF false (frags.map (·.text)) = true
+
+instance (frags : List Frag) : Decidable (NoSplitCRLF frags) :=
+  inferInstanceAs (Decidable (_ = true))
+
+/-- well-formed stream: `lineno`/`colno` both present or both absent, and `NoSplitCRLF` -/
+def WFStream (frags : List Frag) : Prop := wfStream frags = true
+
+instance (frags : List Frag) : Decidable (WFStream frags) :=
+  inferInstanceAs (Decidable (_ = true))
+
+theorem WFStream.noSplit {frags : List Frag} (h : WFStream frags) : NoSplitCRLF frags := by
+  unfold WFStream wfStream at h
+  simp only [Bool.and_eq_true] at h
+  exact h.2
+
+/-- `f` is the `i`-th fragment, writes something, and is explicitly positioned at
+(1-based) source line `l + 1`, column `c + 1` -/
+structure ExplicitAt (frags : List Frag) (i : Nat) (f : Frag) (l c : Nat) : Prop where
+  here : frags[i]? = some f
+  nonempty : f.text ≠ []
+  line : f.lineno = some (l + 1)
+  col : f.colno = some (c + 1)
+
+/-- generated (line, column), zero-based, at which the first character of fragment `i` is
+written: computed on the concatenated text, LF / CR / CRLF being the line delimiters -/
+def genLC (frags : List Frag) (i : Nat) : Nat × Nat := genPos (frags.map (·.text)) i
+
+/-- what the source table must say about source index `si` of fragment `i`: it denotes the
+source in force there (`effSource`), or is `0` while no source has been given yet -/
+def SourceClause (frags : List Frag) (i : Nat) (sources : List (List Char)) (si : Nat) : Prop :=
+  si < sources.length ∧
+  match effSource (frags.take (i + 1)) with
+  | some s => sources[si]? = some (renderSrc s)
+  | none => si = 0
+
+/-- **write_decodes** (`normalize = False`).  The Spec decoder finds, on generated line `gl`,
+a segment starting exactly at generated column `gc` whose absolute fields are the fragment's
+source index, line − 1, column − 1 and — iff renamed — the index of its original name. -/
+theorem write_decodes (cc : CharClasses) (hcc : ClassesOK cc) (frags : List Frag)
+    (hns : NoSplitCRLF frags) (i : Nat) (f : Frag) (l c : Nat) (hf : ExplicitAt frags i f l c) :
+    ∃ r D e, ∃ si : Nat,
+      write cc false frags = some r ∧ decode r.mappings = some D ∧
+      exactAt (lineAt D (genLC frags i).1) (genLC frags i).2 = some e ∧
+      e.genCol = (genLC frags i).2 ∧
+      e.src = some ((si : Int), (l : Int), (c : Int)) ∧
+      SourceClause frags i r.sources si ∧
+      (match f.name with
+        | none => e.name = none
+        | some nm => ∃ ni : Nat, e.name = some (ni : Int) ∧ r.names[ni]? = some nm) := by
+  obtain ⟨r, D, e, si, h1, h2, _, h4, h5, _, h7, h8, h9, h10⟩ :=
+    explicit_lookup cc hcc frags hns false i f hf.here hf.nonempty l c hf.line hf.col
+  refine ⟨r, D, e, si, h1, h2, h7 (Or.inl rfl), h4, h5, ⟨h8, ?_⟩, h10⟩
+  revert h9; cases effSource (frags.take (i + 1)) <;> simp
+
+/-- **write_decodes_normalized** (`normalize = True`).  Looking the position up through the
+nearest preceding segment of the line, column offset added (`interp`), gives the fragment's
+source index, line − 1, column − 1; a renamed fragment moreover has a 5-field segment exactly
+at `gc` carrying the index of its original name. -/
+theorem write_decodes_normalized (cc : CharClasses) (hcc : ClassesOK cc) (frags : List Frag)
+    (hns : NoSplitCRLF frags) (i : Nat) (f : Frag) (l c : Nat) (hf : ExplicitAt frags i f l c) :
+    ∃ r D, ∃ si : Nat,
+      write cc true frags = some r ∧ decode r.mappings = some D ∧
+      interp (lineAt D (genLC frags i).1) (genLC frags i).2 = some ((si : Int), (l : Int), (c : Int)) ∧
+      SourceClause frags i r.sources si ∧
+      (∀ nm, f.name = some nm → ∃ e, ∃ ni : Nat,
+        exactAt (lineAt D (genLC frags i).1) (genLC frags i).2 = some e ∧
+        e.src = some ((si : Int), (l : Int), (c : Int)) ∧
+        e.name = some (ni : Int) ∧ r.names[ni]? = some nm) := by
+  obtain ⟨r, D, e, si, h1, h2, _, _, h5, h6, h7, h8, h9, h10⟩ :=
+    explicit_lookup cc hcc frags hns true i f hf.here hf.nonempty l c hf.line hf.col
+  refine ⟨r, D, si, h1, h2, h6, ⟨h8, ?_⟩, ?_⟩
+  · revert h9; cases effSource (frags.take (i + 1)) <;> simp
+  · intro nm hnm
+    rw [hnm] at h10
+    obtain ⟨ni, hni, hnames⟩ := h10
+    exact ⟨e, ni, h7 (Or.inr (by simp [hnm])), h5, hni, hnames⟩
+
+/-- **indices_in_range** (any stream, either setting): `write` succeeds, its mappings decode,
+and in every decoded segment the generated column, source line and source column are `≥ 0`,
+the source index is `< len(sources)` and the name index `< len(names)`. -/
+theorem indices_in_range (cc : CharClasses) (frags : List Frag) (normalize : Bool) :
+    ∃ r D, write cc normalize frags = some r ∧ decode r.mappings = some D ∧
+      ∀ line ∈ D, ∀ e ∈ line,
+        0 ≤ e.genCol ∧
+        (∀ s l c, e.src = some (s, l, c) → 0 ≤ s ∧ s < (r.sources.length : Int) ∧ 0 ≤ l ∧ 0 ≤ c) ∧
+        (∀ n, e.name = some n → 0 ≤ n ∧ n < (r.names.length : Int)) := by
+  obtain ⟨D, es, m', D', hw, hwrite, hdec, hrel, _⟩ := write_any cc frags normalize
+  refine ⟨_, D', hwrite, hdec, ?_⟩
+  intro line hline e he
+  obtain ⟨a, ha, hr⟩ := hrel.mem line hline
+  exact inRange_of_entryOK _ _ _ (hw.ok a ha e (hr.sub.subset he))
+
+/-- **gen_columns_monotone** (any stream, either setting): generated columns are strictly
+increasing within every line (hence non-decreasing). -/
+theorem gen_columns_monotone (cc : CharClasses) (frags : List Frag) (normalize : Bool) :
+    ∃ r D, write cc normalize frags = some r ∧ decode r.mappings = some D ∧
+      ∀ line ∈ D, (line.map (·.genCol)).Pairwise (· < ·) := by
+  obtain ⟨D, es, m', D', hw, hwrite, hdec, hrel, _⟩ := write_any cc frags normalize
+  refine ⟨_, D', hwrite, hdec, ?_⟩
+  intro line hline
+  obtain ⟨a, ha, hr⟩ := hrel.mem line hline
+  have hsa : Sorted a := by
+    rcases mem_snoc_lines ha with ha | rfl
+    · exact hw.D_sorted _ ha
+    · exact hw.es_sorted
+  exact sorted_sublist hr.sub hsa
+
+/-- **line_count**: the number of mapping lines is the number of LF/CR/CRLF-delimited lines
+of the written text. -/
+theorem line_count (cc : CharClasses) (hcc : ClassesOK cc) (frags : List Frag)
+    (hns : NoSplitCRLF frags) (normalize : Bool) :
+    ∃ r, write cc normalize frags = some r ∧ r.mappings.length = lineCount (output frags) := by
+  obtain ⟨D, es, m', D', hw, hwrite, _, _, hlen⟩ := write_any cc frags normalize
+  refine ⟨_, hwrite, ?_⟩
+  have := raw_line_count cc hcc frags hns
+  simp only [List.length_append, List.length_singleton] at this
+  simp only [hlen, this]
+
+/-- **write_WFMappings** (any stream, either setting): at least one line, no empty segment —
+the hypothesis `Spec.VlqV3.WFMappings` of C10's `mappings_roundtrip`. -/
+theorem write_WFMappings (cc : CharClasses) (frags : List Frag) (normalize : Bool) :
+    ∃ r, write cc normalize frags = some r ∧
+      (r.mappings ≠ [] ∧ ∀ line ∈ r.mappings, ∀ seg ∈ line, seg ≠ []) := by
+  obtain ⟨D, es, m', D', hw, hwrite, hdec, _, hlen⟩ := write_any cc frags normalize
+  refine ⟨_, hwrite, ?_, decode_seg_ne hdec⟩
+  intro h
+  simp only at h
+  rw [h] at hlen
+  simp at hlen
+
+/-- **multi_source**: in a stream concatenating several sources, two explicitly positioned
+fragments decode to the same source index iff the sources in force at them are the same, and
+each index denotes its source in the `sources` list. -/
+theorem multi_source (cc : CharClasses) (hcc : ClassesOK cc) (frags : List Frag)
+    (hns : NoSplitCRLF frags) (normalize : Bool)
+    (i j : Nat) (fi fj : Frag) (li ci lj cj : Nat)
+    (hi : ExplicitAt frags i fi li ci) (hj : ExplicitAt frags j fj lj cj)
+    (a b : Src) (ha : effSource (frags.take (i + 1)) = some a) (hb : effSource (frags.take (j + 1)) = some b) :
+    ∃ r D, ∃ si sj : Nat,
+      write cc normalize frags = some r ∧ decode r.mappings = some D ∧
+      interp (lineAt D (genLC frags i).1) (genLC frags i).2 = some ((si : Int), (li : Int), (ci : Int)) ∧
+      interp (lineAt D (genLC frags j).1) (genLC frags j).2 = some ((sj : Int), (lj : Int), (cj : Int)) ∧
+      r.sources[si]? = some (renderSrc a) ∧ r.sources[sj]? = some (renderSrc b) ∧
+      (si = sj ↔ a = b) := by
+  obtain ⟨r, D, _, si, h1, h2, _, _, _, h6, _, _, h9, _⟩ :=
+    explicit_lookup cc hcc frags hns normalize i fi hi.here hi.nonempty li ci hi.line hi.col
+  obtain ⟨r', D', _, sj, h1', h2', _, _, _, h6', _, _, h9', _⟩ :=
+    explicit_lookup cc hcc frags hns normalize j fj hj.here hj.nonempty lj cj hj.line hj.col
+  rw [h1] at h1'
+  obtain rfl := Option.some.inj h1'
+  rw [h2] at h2'
+  obtain rfl := Option.some.inj h2'
+  rw [ha] at h9
+  rw [hb] at h9'
+  refine ⟨r, D, si, sj, h1, h2, h6, h6', h9.2, h9'.2, ?_⟩
+  have hnd := writeLoop_sources_nodup cc frags WState.init (by simp [WState.init, Names.empty])
+  constructor
+  · rintro rfl
+    have := h9.1.symm.trans h9'.1
+    exact Option.some.inj this
+  · rintro rfl
+    exact nodup_getElem?_inj hnd h9.1 h9'.1
+
+
+/-- **written_text**: the pieces handed to `stream.write` (the lines of `splitlines(True)` of
+every fragment, in order) concatenate to the fragment texts: the written text is `output`. -/
+theorem written_text (cc : CharClasses) (frags : List Frag) :
+    (frags.map (fun f => (splitLines cc.brk f.text).flatten)).flatten = output frags := by
+  simp [output, splitLines_flatten]
+
+/-! ### the hypotheses are satisfiable (non-vacuity) -/
+
+/-- two sources, a renamed identifier, a multi-line string with CRLF inside, layout fragments
+with inferred `(0, 0)` and unmapped `(None, None)` positions, a `;` with implicit source -/
+def demo : List Frag :=
+  [ ⟨['v', 'a', 'r'], some 1, some 1, none, some (.path ['a', '.', 'j', 's'])⟩,
+    ⟨[' '], some 0, some 0, none, none⟩,
+    ⟨['x'], some 1, some 5, some ['l', 'o', 'n', 'g'], some (.path ['a', '.', 'j', 's'])⟩,
+    ⟨['=', '\'', 's', '\\', '\r', '\n', 't', '\''], some 1, some 9, none, some (.path ['a', '.', 'j', 's'])⟩,
+    ⟨[';'], some 2, some 3, none, none⟩,
+    ⟨['\n'], some 0, some 0, none, none⟩,
+    ⟨[' ', ' '], none, none, none, none⟩,
+    ⟨['y'], some 1, some 1, none, some (.path ['b', '.', 'j', 's'])⟩,
+    ⟨['z'], some 1, some 2, none, some .invalid⟩ ]
+
+example : WFStream demo ∧ NoSplitCRLF demo := by decide
+example : ExplicitAt demo 2 ⟨['x'], some 1, some 5, some ['l', 'o', 'n', 'g'], some (.path ['a', '.', 'j', 's'])⟩ 0 4 :=
+  ⟨rfl, by decide, rfl, rfl⟩
+example : ExplicitAt demo 4 ⟨[';'], some 2, some 3, none, none⟩ 1 2 := ⟨rfl, by decide, rfl, rfl⟩
+example : genLC demo 4 = (1, 2) ∧ genLC demo 7 = (2, 2) := by decide
+example : effSource (demo.take 5) = some (.path ['a', '.', 'j', 's']) ∧
+    effSource (demo.take 8) = some (.path ['b', '.', 'j', 's']) := by decide
+example : ClassesOK pyClasses := pyClasses_ok
+/-- what the model returns on `demo` (raw and normalised); equal to what the implementation returns -/
+example : (write pyClasses false demo).map (·.mappings) =
+    some [[[0, 0, 0, 0], [3, 0, 0, 3], [1, 0, 0, 1, 0], [1, 0, 0, 4]],
+          [[0, 0, 1, -8], [2, 0, 0, 2], [1, 0, 0, 1]],
+          [[0], [2, 1, -1, -3], [1, 1, 0, 1]]] := by decide
+example : (write pyClasses true demo).map (·.mappings) =
+    some [[[0, 0, 0, 0], [4, 0, 0, 4, 0], [1, 0, 0, 4]],
+          [[0, 0, 1, -8]],
+          [[2, 1, -1, 0], [1, 1, 0, 1]]] := by decide
+example : (write pyClasses true demo).map (·.sources) =
+    some [['a', '.', 'j', 's'], ['b', '.', 'j', 's'], invalidSource] := by decide
+
+/-! ### the hypotheses are necessary -/
+
+/-- a CRLF split over two fragments: three mapping lines for a two-line text -/
+def splitCRLF : List Frag :=
+  [⟨['a', '\r'], none, none, none, none⟩, ⟨['\n'], none, none, none, none⟩,
+   ⟨['b'], some 1, some 1, none, none⟩]
+
+example : ¬ NoSplitCRLF splitCRLF := by decide
+/-- `line_count` fails without `NoSplitCRLF` -/
+example : (write pyClasses false splitCRLF).map (·.mappings.length) = some 3 ∧
+    lineCount (output splitCRLF) = 2 := by decide
+/-- `write_decodes` fails without `NoSplitCRLF`: `b` is written at generated (1, 0), but line 1
+of the map only has the unmapped segment of the `\n` fragment; `b`'s segment is on line 2 -/
+example : genLC splitCRLF 2 = (1, 0) ∧
+    ((write pyClasses false splitCRLF).bind (fun r => decode r.mappings)).map
+      (fun D => (exactAt (lineAt D 1) 0, exactAt (lineAt D 2) 0)) =
+      some (some ⟨0, none, none⟩, some ⟨0, some (0, 0, 0), none⟩) := by decide
+
+/-- an explicitly positioned fragment with empty text emits nothing: `nonempty` is necessary -/
+def emptyText : List Frag := [⟨[], some 1, some 1, none, none⟩]
+example : NoSplitCRLF emptyText ∧
+    ((write pyClasses false emptyText).bind (fun r => decode r.mappings)).map
+      (fun D => exactAt (lineAt D 0) 0) = some none := by decide
+
 end CalmVerif.Props.C09
